@@ -648,6 +648,75 @@ theorem C09_writer_complete_iff_checked (checks : Bool) :
     cases hw : wantsFile a w <;> cases hco : out.canOpen <;> cases hcf : out.canFlush <;> simp [hw, hco, hcf] at h
     rw [← h.1]
 
+/-! ## Round 7: two more pieces tied to the source -/
+
+/-- **Which exceptions the three catch ladders take** (generated handler types, in source order; C++ matching rule
+`handlerCatches`).  `BackendApp::Run`, `RunBackendApp` and `StdBackend::ReportSuffixes` take every `std::exception`
+and nothing else: an exception leaves them iff it is foreign — the condition the model uses (`reportError`,
+`rbaOutcome`, the `suffixes` arm of `step`).  `mp::Error` objects take the first clause of the two outer ladders.
+`ReportSuffixes` has exactly the two reporting calls in its try block and no handler rethrows (the translator refuses
+otherwise). -/
+theorem C09_gen_ladders_catch (x : Exn) :
+    (caughtBy Gen.C09.runHandlers x = none ↔ x = .foreign) ∧
+    (caughtBy Gen.C09.rbaHandlers x = none ↔ x = .foreign) ∧
+    (caughtBy Gen.C09.suffixesHandlers x = none ↔ x = .foreign) ∧
+    (∀ c, caughtBy Gen.C09.runHandlers (.mpError c) = some "mp::Error" ∧ caughtBy Gen.C09.rbaHandlers (.mpError c) = some "mp::Error") ∧
+    caughtBy Gen.C09.runHandlers .stdExn = some "std::exception" ∧ caughtBy Gen.C09.rbaHandlers .stdExn = some "std::exception" ∧
+    Gen.C09.suffixesTryCalls = ["ReportStandardSuffixes", "ReportCustomSuffixes"] := by
+  have e : ∀ c, handlerCatches "mp::Error" (.mpError c) = true := fun _ => rfl
+  refine ⟨?_, ?_, ?_, fun c => ?_, by decide, by decide, by decide⟩
+  case refine_4 => simp [caughtBy, Gen.C09.runHandlers, Gen.C09.rbaHandlers, List.find?, e]
+  all_goals cases x <;> simp [caughtBy, Gen.C09.runHandlers, Gen.C09.rbaHandlers, Gen.C09.suffixesHandlers, List.find?, handlerCatches]
+
+/-- The `suffixes` arm of the pipeline, stated through the generated ladder: an exception raised while suffixes are
+reported is swallowed (the run goes on in the same state) exactly when `ReportSuffixes`' ladder takes it; otherwise the
+run ends as `onRaise` says. -/
+theorem C09_suffix_step_follows_ladder (sc : Scenario) (bs : Behaviours) (st : PState) (r : Raise)
+    (h : look bs .suffixes = some (.raises r)) :
+    step sc bs (.env .suffixes) st =
+      (if (caughtBy Gen.C09.suffixesHandlers r.toExn).isSome then .next st else .done (onRaise sc st r)) := by
+  have hc := (C09_gen_ladders_catch r.toExn).2.2.1
+  by_cases hf : r = .foreign
+  · subst hf
+    simp [step, h, duringStage, Raise.toExn, caughtBy, Gen.C09.suffixesHandlers, handlerCatches]
+  · have : caughtBy Gen.C09.suffixesHandlers r.toExn ≠ none := fun hn => hf ((toExn_foreign_iff r).1 (hc.1 hn))
+    cases hcb : caughtBy Gen.C09.suffixesHandlers r.toExn with
+    | none => exact absurd hcb this
+    | some t => simp [step, h, hf]
+
+/-- **`fmt::BufferedFile::close()`** (generated from src/posix.cc statement by statement, `fclose`'s return value a
+parameter), for every state and every return value:
+* afterwards the object owns no stream (also when it throws) — so the destructor that runs next does not call `fclose`
+  a second time on the same stream;
+* it throws iff it owned a stream and `fclose` failed (returned non-zero: buffered data could not be written);
+* it calls `fclose` exactly once if it owned a stream, never otherwise, and never on a dead stream if the stream it
+  owned was live. -/
+theorem C09_gen_buffered_file_close (s : Gen.C09.FileState) (res res' : Int) :
+    (Gen.C09.bufferedFileClose s res).fileSet = false ∧
+    (Gen.C09.bufferedFileClose s res).threw = (s.threw || (s.fileSet && res != 0)) ∧
+    (Gen.C09.bufferedFileClose s res).fcloses = s.fcloses + (if s.fileSet then 1 else 0) ∧
+    ((s.fileSet = true → s.live = true) → (Gen.C09.bufferedFileClose s res).doubleClose = s.doubleClose) ∧
+    -- close, then the destructor: nothing more happens
+    Gen.C09.bufferedFileDtor (Gen.C09.bufferedFileClose s res) res' = Gen.C09.bufferedFileClose s res := by
+  cases hs : s.fileSet <;> by_cases hr : res = 0 <;>
+    simp [Gen.C09.bufferedFileClose, Gen.C09.bufferedFileDtor, Gen.C09.fcloseCall, hs, hr]
+  all_goals (intro hl; simp [hl])
+
+/-- **The destructor alone never throws** (it only reports): a writer that lets the `BufferedFile` go out of scope
+without `close()` — the code before 87b3b50 — returns normally whatever `fclose` says.  And the writer of the current
+tree checks: its last statement is `file.close()` (generated) and `close()` on an open file throws when `fclose` fails. -/
+theorem C09_gen_writer_checks_close :
+    (∀ s res, (Gen.C09.bufferedFileDtor s res).threw = s.threw) ∧
+    (∀ res, (Gen.C09.bufferedFileClose ⟨true, true, 0, false, false, false⟩ res).threw = (res != 0)) ∧
+    writerChecksClose = (Gen.C09.solWriterClosesFile &&
+      (Gen.C09.bufferedFileClose ⟨true, true, 0, false, false, false⟩ 1).threw) := by
+  refine ⟨?_, ?_, by decide⟩
+  · intro s res
+    cases hs : s.fileSet <;> by_cases hr : res = 0 <;>
+      simp [Gen.C09.bufferedFileDtor, Gen.C09.fcloseCall, hs, hr]
+  · intro res
+    by_cases hr : res = 0 <;> simp [Gen.C09.bufferedFileClose, Gen.C09.fcloseCall, hr]
+
 /-! ## Round 5: the driver as a pipeline — the ending is computed, not given
 
 `runP sc bs` (`Pipeline.lean`) folds the driver's real stage sequence over a state (inside `Run`? handler
@@ -1041,6 +1110,15 @@ example := C09_optfile_unreadable_outcome { scBase with opts := [.tok .ok, .optf
   [.tok .ok] [.tok .bad] [.wantsol 8] (by decide) (by decide) (by decide) (by decide) (by decide) (by decide) (by decide) (by decide)
 example := C09_exportonly_run { scBase with justExport := true, opts := [.tok .ok] } (by decide) (by decide) (by decide) (by decide) (by decide) (by decide)
 -- the pipeline: several stages would raise, options contain an unreadable file after the bad token
+-- round 7: instances
+example : (Gen.C09.bufferedFileClose ⟨true, true, 0, false, false, false⟩ (-1)) = ⟨false, false, 1, false, true, false⟩ := by decide
+example : (Gen.C09.bufferedFileClose ⟨true, true, 0, false, false, false⟩ 0) = ⟨false, false, 1, false, false, false⟩ := by decide
+example : (Gen.C09.bufferedFileDtor ⟨true, true, 0, false, false, false⟩ (-1)) = ⟨true, false, 1, false, false, true⟩ := by decide
+example := C09_gen_buffered_file_close ⟨true, true, 0, false, false, false⟩ (-1) 0
+example := C09_suffix_step_follows_ladder scBase [(.suffixes, .raises .stdExn)] PState.init .stdExn (by decide)
+example : runP scBase [(.suffixes, .raises .foreign)] = .crash := by decide
+example : caughtBy ["mp::Error"] .stdExn = none := by decide      -- a narrower ladder would let it through
+
 def bsMessy : Behaviours :=
   [(.solve, .aborts), (.convert, .raises .infeas), (.body, .raises .readError), (.convert, .raises .plain), (.report, .hangs)]
 example : runP scMessy bsMessy = .sol ⟨500, 7, 0, 9, 0, true⟩ true := by decide
